@@ -48,6 +48,7 @@ def cells(tier):
                 continue                      # per-step settings carry no run specs
             out.append((channel, kind, "scenario"))
         out.append((channel, "none", "none"))           # a scenario without overrides reproduces the model
+        out.append((channel, "constant-zero", "both"))  # an override whose value is falsy (0.0) must still win over the base value
     if tier == "thorough":
         for channel in ("register", "session", "rest_run"):
             out.append((channel, "constant+points", "both"))
@@ -91,6 +92,13 @@ def run_cell(cell, mode, env=None):
         if level in ("scenario", "both"):
             later.setdefault("constants", {})["k"] = const("ak")
             exp_const["k"] = later["constants"]["k"]
+    if "constant-zero" in kinds:
+        base_extra["base_constants"] = {"k": const("bk"), "c": const("bc")}
+        exp_const.update(base_extra["base_constants"])
+        exp_b_const.update(base_extra["base_constants"])
+        later.setdefault("constants", {})["k"] = 0.0
+        later["constants"]["c"] = 0
+        exp_const["k"], exp_const["c"] = 0.0, 0
     if "points" in kinds:
         if level in ("base", "both"):
             base_extra["base_points"] = {"pts": pts("bp")}
